@@ -89,3 +89,18 @@ PROPS["C09"] = {
     "trusted_base": ["cell contents are abstracted to the atom of the first run of each paragraph"],
     "assumptions": ["tables are created by CreateTable/AddTable (every cell has properties); cells hold no pictures (CopyTable shares drawing objects)"],
 }
+
+PROPS["C03"] = {
+    "n": {"quick": 240, "thorough": 4000},
+    "per_shard": 25,
+    "corr_targets": ["Corr/SchemaCorr.vo", "Corr/XmlTextCorr.vo"],
+    "corr": "Corr/SchemaCorr.v: Model.Schema read (write d) over the tables of Gen/Schema.v vs the body document.Open returns for the saved bytes, and vs the body after a second cycle; Corr/XmlTextCorr.v: Model.XmlText escape/unescape vs xml.EscapeText and xml.Decoder",
+    "trusted_base": [
+        "Gen/Schema.v regenerated from pkg/document on every run: struct tags (writer schema) and, per struct type, the string literals of the reader functions that construct it (coverage); it records which names the reader reacts to, not what it does with them - that is what the correspondence observes",
+        "Corr/SchemaCorr.v implicit: Stretch.FillRect and PrstGeom.AvLst are created by the reader together with their parent (content-free elements)",
+        "harness/dump.go: reflection dump of Body.Elements; an empty property container counts as absent, xml:space of a text without content and namespace declarations are not data, the section settings stand last",
+        "Model/XmlText.v treats bytes above 127 as opaque (valid UTF-8 of legal characters is assumed; the harness generates such strings)",
+        "the order in which a custom MarshalXML writes children of different names is not modelled (the reader is insensitive to it)",
+    ],
+    "assumptions": ["formula paragraphs are outside the model's domain (read back under the element name of ordinary paragraphs); the oracle covers them"],
+}
